@@ -11,6 +11,21 @@ REPLAYS = os.path.join(VERIF, "replays")
 CORPUS = os.path.join(VERIF, "corpus")
 NCPU = min(16, os.cpu_count() or 4)
 
+
+def _repo_dir():
+    """The crate under test = the path dependency of the harness (normally /repo; a scratch copy in self-tests)."""
+    try:
+        for line in open(os.path.join(HARNESS, "Cargo.toml")):
+            m = re.match(r'\s*minimal-lexical\s*=.*path\s*=\s*"([^"]+)"', line)
+            if m:
+                return m.group(1)
+    except OSError:
+        pass
+    return "/repo"
+
+
+REPO = _repo_dir()
+
 FEATURES = {
     "default": "std",
     "compact": "std,compact",
@@ -292,7 +307,7 @@ def abnormal(results):
 
 def first_repo_frame(text):
     """First stack frame (file:line) inside the crate under test."""
-    m = re.search(r"/repo/(src/[a-z_]+\.rs):(\d+)", text)
+    m = re.search(re.escape(REPO) + r"/(src/[a-z_]+\.rs):(\d+)", text)
     if m:
         return "%s:%s" % (m.group(1), m.group(2))
     # valgrind: "by 0x...: minimal_lexical::bigint::small_mul (bigint.rs:457)"
